@@ -12,17 +12,29 @@ import (
 // C14: the calculation-process text of arithmetic over dice terms.
 
 type c14Slot struct {
-	Kind   string // term, var, computed, nested
-	Text   string // source text of the slot
-	Terms  []int  // indexes (0-based) into terms, in evaluation order; the last one carries the slot's value
-	Name   string
-	Value  int64  // var: assigned value
-	Marks  int    // mark.detail steps the slot executes at depth 0
-	Prefix string // statement that must precede the expression
-	InnerOff, OuterOff int // nested: where the inner and the outer span begin inside Text
+	Kind                       string // term, var, computed, nested
+	Text                       string // source text of the slot
+	Terms                      []int  // indexes (0-based) into terms, in evaluation order; the last one carries the slot's value
+	Name                       string
+	Value                      int64  // var: assigned value
+	Marks                      int    // mark.detail steps the slot executes at depth 0
+	Prefix                     string // statement that must precede the expression
+	OuterOff                   int    // nested: where the outer span begins inside Text
+	Subs                       []c14Sub
+	TimesAst, SidesAst, CntAst N // nested: the operands of the outer term over the values of Subs
+}
+
+// c14Sub is a roll or variable inside an operand of a dice term
+type c14Sub struct {
+	Kind  string // term, var
+	Text  string
+	Off   int // offset inside the slot's text
+	Term  int // index into terms
+	Value int64
 }
 
 type c14Gen struct {
+	names map[string]bool
 	r     *rand.Rand
 	terms []dicePlan
 	texts []string
@@ -70,18 +82,82 @@ func (g *c14Gen) term() (N, string) {
 }
 
 func (g *c14Gen) usedName() string {
+	if g.names == nil {
+		g.names = map[string]bool{}
+	}
 	for {
 		n := c14Names[g.r.Intn(len(c14Names))] + []string{"", "", "2", "_b", "三"}[g.r.Intn(5)]
-		ok := true
-		for _, s := range g.slots {
-			if s.Name == n {
-				ok = false
-			}
-		}
-		if ok {
+		if !g.names[n] {
+			g.names[n] = true
 			return n
 		}
 	}
+}
+
+// hole writes one operand of a dice term: a literal, or a parenthesised sum over rolls and variables
+func (g *c14Gen) hole(sl *c14Slot, sb *strings.Builder, allowPlain bool, lo int64) N {
+	if allowPlain && g.r.Intn(3) == 0 {
+		v := lo + g.r.Int63n(6)
+		sb.WriteString(fmt.Sprint(v))
+		return N{"k": "num", "v": v}
+	}
+	sub := func() N {
+		if g.r.Intn(4) == 0 {
+			n, v := g.usedName(), 1+g.r.Int63n(3)
+			if sl.Prefix != "" {
+				sl.Prefix += "; "
+			}
+			sl.Prefix += fmt.Sprintf("%s = %d", n, v)
+			sl.Subs = append(sl.Subs, c14Sub{Kind: "var", Text: n, Off: sb.Len(), Value: v})
+			sb.WriteString(n)
+		} else {
+			x, y := 1+g.r.Int63n(2), 2+g.r.Int63n(2)
+			t := fmt.Sprintf("%dd%d", x, y)
+			g.terms = append(g.terms, dicePlan{Fam: "common", Faces: []int64{}, P: diceP{Times: x, Sides: y, Mn: -1, Mx: -1}})
+			g.texts = append(g.texts, t)
+			sl.Subs = append(sl.Subs, c14Sub{Kind: "term", Text: t, Off: sb.Len(), Term: len(g.terms) - 1})
+			sb.WriteString(t)
+		}
+		return N{"k": "slot", "i": len(sl.Subs)}
+	}
+	sb.WriteString("(")
+	var a N
+	switch g.r.Intn(4) {
+	case 0:
+		a = sub()
+	case 1:
+		l := sub()
+		sb.WriteString([]string{"+", " + ", "+ "}[g.r.Intn(3)])
+		a = N{"k": "bin", "op": "+", "l": l, "r": sub()}
+	case 2:
+		l := sub()
+		v := g.r.Int63n(3)
+		sb.WriteString("+" + fmt.Sprint(v))
+		a = N{"k": "bin", "op": "+", "l": l, "r": N{"k": "num", "v": v}}
+	default:
+		v := 1 + g.r.Int63n(2)
+		sb.WriteString(fmt.Sprint(v) + "+")
+		a = N{"k": "bin", "op": "+", "l": N{"k": "num", "v": v}, "r": sub()}
+	}
+	sb.WriteString(")")
+	return a
+}
+
+func evalN(a N, vals []int64) int64 {
+	switch a["k"] {
+	case "num":
+		switch v := a["v"].(type) {
+		case int64:
+			return v
+		case int:
+			return int64(v)
+		}
+	case "slot":
+		return vals[a["i"].(int)-1]
+	case "bin":
+		return evalN(a["l"].(N), vals) + evalN(a["r"].(N), vals)
+	}
+	return 0
 }
 
 // variable, computed value or a dice term whose count is itself rolled
@@ -103,19 +179,38 @@ func (g *c14Gen) special() (N, string) {
 		x, y, c := 1+g.r.Int63n(3), 2+g.r.Int63n(8), g.r.Int63n(5)
 		g.slots = append(g.slots, c14Slot{Kind: "computed", Text: n, Name: n, Marks: 1, Prefix: fmt.Sprintf("&%s = %dd%d+%d", n, x, y, c)})
 	default:
-		x, y, sd := 1+g.r.Int63n(3), 1+g.r.Int63n(4), 2+g.r.Int63n(9)
-		in := dicePlan{Fam: "common", Faces: []int64{}, P: diceP{Times: x, Sides: y, Mn: -1, Mx: -1}}
-		out := dicePlan{Fam: "common", Faces: []int64{}, P: diceP{Times: -1, Sides: sd, Mn: -1, Mx: -1}} // count known after the run
-		inner := fmt.Sprintf("%dd%d", x, y)
-		txt := fmt.Sprintf("(%s)d%d", inner, sd)
-		io, oo := 1, 0
-		if g.r.Intn(3) == 0 { // chained form XdYdS: the second span starts at its own d
-			txt = fmt.Sprintf("%sd%d", inner, sd)
-			io, oo = 0, len(inner)
+		sl := c14Slot{Kind: "nested"}
+		var sb strings.Builder
+		out := dicePlan{Fam: "common", Faces: []int64{}, P: diceP{Times: -1, Sides: -1, Mn: -1, Mx: -1}} // operands known after the run
+		switch g.r.Intn(4) {
+		case 0: // chained form XdYdS: the second span starts at its own d
+			x, y, sd := 1+g.r.Int63n(3), 1+g.r.Int63n(4), 2+g.r.Int63n(9)
+			t := fmt.Sprintf("%dd%d", x, y)
+			g.terms = append(g.terms, dicePlan{Fam: "common", Faces: []int64{}, P: diceP{Times: x, Sides: y, Mn: -1, Mx: -1}})
+			g.texts = append(g.texts, t)
+			sl.Subs = []c14Sub{{Kind: "term", Text: t, Off: 0, Term: len(g.terms) - 1}}
+			sb.WriteString(t)
+			sl.OuterOff = sb.Len()
+			sb.WriteString(fmt.Sprintf("d%d", sd))
+			sl.TimesAst, sl.SidesAst = N{"k": "slot", "i": 1}, N{"k": "num", "v": sd}
+		case 1: // literal count, rolled sides and keep-count
+			sb.WriteString("3d")
+			sl.TimesAst = N{"k": "num", "v": int64(3)}
+			sl.SidesAst = g.hole(&sl, &sb, true, 2)
+			sb.WriteString("k")
+			sl.CntAst = g.hole(&sl, &sb, false, 1)
+			out.P.Kind = 2
+		default:
+			sl.TimesAst = g.hole(&sl, &sb, false, 1)
+			sb.WriteString([]string{"d", "D"}[g.r.Intn(2)])
+			sl.SidesAst = g.hole(&sl, &sb, true, 2)
 		}
-		g.terms = append(g.terms, in, out)
-		g.texts = append(g.texts, inner, txt)
-		g.slots = append(g.slots, c14Slot{Kind: "nested", Text: txt, Name: inner, Terms: []int{len(g.terms) - 2, len(g.terms) - 1}, Marks: 2, InnerOff: io, OuterOff: oo})
+		sl.Text = sb.String()
+		g.terms = append(g.terms, out)
+		g.texts = append(g.texts, sl.Text)
+		sl.Terms = []int{len(g.terms) - 1}
+		sl.Marks = len(sl.Subs) + 1
+		g.slots = append(g.slots, sl)
 	}
 	return N{"k": "slot", "i": len(g.slots)}, "\x00"
 }
@@ -173,7 +268,12 @@ func segment(detail string, chunks []string) (vals []int64, annots []string, ok 
 	pos := 0
 	for i := 0; i < len(chunks)-1; i++ {
 		if !strings.HasPrefix(detail[pos:], chunks[i]) {
-			return nil, nil, false
+			// a term ending in a parenthesis takes the blanks after it into its annotation
+			if t := strings.TrimLeft(chunks[i], " \n\t"); i > 0 && strings.HasPrefix(detail[pos:], t) {
+				chunks[i] = t
+			} else {
+				return nil, nil, false
+			}
 		}
 		pos += len(chunks[i])
 		m := reLeadInt.FindString(detail[pos:])
@@ -204,7 +304,7 @@ func segment(detail string, chunks []string) (vals []int64, annots []string, ok 
 		}
 		annots = append(annots, ann)
 	}
-	if detail[pos:] != chunks[len(chunks)-1] {
+	if detail[pos:] != chunks[len(chunks)-1] && detail[pos:] != strings.TrimLeft(chunks[len(chunks)-1], " \n\t") {
 		return nil, nil, false
 	}
 	return vals, annots, true
@@ -311,7 +411,8 @@ func init() {
 			spanAt := func(b, e int) *ds.BufferSpan {
 				for k := range vm.DetailSpans {
 					sp := &vm.DetailSpans[k]
-					if int(sp.Begin) == b && int(sp.End) == e {
+					// a term ending in a parenthesis takes the blanks after it into its span
+					if int(sp.Begin) == b && int(sp.End) >= e && int(sp.End) <= len(src) && strings.TrimSpace(src[e:sp.End]) == "" {
 						return sp
 					}
 				}
@@ -335,7 +436,7 @@ func init() {
 			var slots []any
 			mi := 0
 			for k, sl := range g.slots {
-				srec := map[string]any{"k": sl.Kind, "ti": 0, "value": int64(0), "hasSpan": false, "name": sl.Name, "annotName": "", "annotValue": int64(0), "annotOk": false, "sub": 0}
+				srec := map[string]any{"k": sl.Kind, "ti": 0, "value": int64(0), "hasSpan": false, "name": sl.Name, "annotName": "", "annotValue": int64(0), "annotOk": false}
 				b := begins[k]
 				outer := spanAt(b+sl.OuterOff, b+len(sl.Text))
 				ann := ""
@@ -369,18 +470,46 @@ func init() {
 					// the annotation printed in the text must be the one of this roll (a text equal to the value is not repeated)
 					srec["annotOk"] = ann == "" || ann == "略" || te.Text == "" || te.Text == fmt.Sprint(te.Total) || strings.Contains(ann, te.Text)
 				case "nested":
-					inner := spanAt(b+sl.InnerOff, b+sl.InnerOff+len(sl.Name))
-					mkTerm(sl.Terms[0], inner, mi)
-					it := terms[sl.Terms[0]].(*diceEv)
-					g.terms[sl.Terms[1]].P.Times = it.Total // the outer count is the inner total
-					mkTerm(sl.Terms[1], outer, mi+1)
-					ot := terms[sl.Terms[1]].(*diceEv)
-					srec["ti"], srec["sub"] = sl.Terms[1]+1, sl.Terms[0]+1
-					if m := reSubAnn.FindStringSubmatch(ann); m != nil {
-						srec["annotName"] = m[1]
-						srec["annotValue"], _ = atoi64(m[2])
+					vals := make([]int64, len(sl.Subs))
+					subs := []any{}
+					for si, sub := range sl.Subs {
+						sp := spanAt(b+sub.Off, b+sub.Off+len(sub.Text))
+						rec := map[string]any{"k": sub.Kind, "ti": 0, "name": sub.Text, "value": int64(0), "assigned": sub.Value, "hasSpan": sp != nil}
+						if sub.Kind == "term" {
+							mkTerm(sub.Term, sp, mi+si)
+							rec["ti"] = sub.Term + 1
+							vals[si] = terms[sub.Term].(*diceEv).Total
+						} else if sp != nil && sp.Ret != nil {
+							v, _ := sp.Ret.ReadInt()
+							vals[si] = int64(v)
+						}
+						rec["value"] = vals[si]
+						subs = append(subs, rec)
+					}
+					// the operands of the outer term are what its sub-expressions evaluated to
+					op := &g.terms[sl.Terms[0]].P
+					op.Times, op.Sides = evalN(sl.TimesAst, vals), evalN(sl.SidesAst, vals)
+					cnt := N{"k": "num", "v": int64(0)}
+					if sl.CntAst != nil {
+						op.Cnt = evalN(sl.CntAst, vals)
+						cnt = sl.CntAst
+					}
+					mkTerm(sl.Terms[0], outer, mi+len(sl.Subs))
+					ot := terms[sl.Terms[0]].(*diceEv)
+					srec["ti"], srec["subs"], srec["timesAst"], srec["sidesAst"], srec["cntAst"] = sl.Terms[0]+1, subs, sl.TimesAst, sl.SidesAst, cnt
+					// sub-rolls are listed after the main part as ,text=value
+					as := []any{}
+					pieces := strings.Split(ann, ",")
+					if len(pieces) > len(sl.Subs) {
+						for _, pc := range pieces[len(pieces)-len(sl.Subs):] {
+							if m := reSubAnn.FindStringSubmatch("," + pc); m != nil {
+								v, _ := atoi64(m[2])
+								as = append(as, map[string]any{"name": m[1], "value": v})
+							}
+						}
 						srec["annotOk"] = ot.Text == "" || ot.Text == fmt.Sprint(ot.Total) || strings.Contains(ann, ot.Text)
 					}
+					srec["annotSubs"] = as
 				case "var":
 					srec["annotName"], srec["annotOk"] = ann, true
 				case "computed":
